@@ -55,6 +55,32 @@ Theorem source_qualifier_type_order :
 Proof. split; [vm_compute; reflexivity | exact qual_cmp_kinds]. Qed.
 Print Assumptions source_qualifier_type_order.
 
+(* ---- hex constants are compared as the bytes they denote (leading zero bytes count, h'' is a value); set literals
+        lexicographically after sorting (a proper prefix is smaller, not equal) ---- *)
+
+Theorem source_constant_comparators :
+  (forall x y, prim_cmp (PHex x) (PHex y) = hex_cmp_g src_hex_cmp x y) /\
+  (forall l1 l2, list_cmp l1 l2 = list_cmp_g src_list_cmp l1 l2).
+Proof. split; reflexivity. Qed.
+Print Assumptions source_constant_comparators.
+
+Theorem alternative_hex_as_number_refuted :
+  hex_cmp_g HexNumber [48; 48; 102; 102]%N [102; 102]%N = Eq /\ prim_cmp (PHex [48; 48; 102; 102]%N) (PHex [102; 102]%N) = Lt.
+Proof. split; vm_compute; reflexivity. Qed.
+Print Assumptions alternative_hex_as_number_refuted.
+
+Theorem alternative_list_zip_refuted :
+  list_cmp_g ListZip [PInt 0] [PInt 0; PInt 2] = Eq /\ list_cmp [PInt 0] [PInt 0; PInt 2] = Lt.
+Proof. split; vm_compute; reflexivity. Qed.
+Print Assumptions alternative_list_zip_refuted.
+
+(* ---- both DNF transformers transform again the AND / FOLLOWEDBY terms they have just built
+        (Model/PatternEq.v: cdnf and odnf call themselves on every product term) ---- *)
+
+Theorem source_dnf_redistributes : src_dnf_redistributes_c = true /\ src_dnf_redistributes_o = true.
+Proof. split; reflexivity. Qed.
+Print Assumptions source_dnf_redistributes.
+
 (* ---- simple_comparison_expression_cmp compares path, operator, negated (non-negated first), constant, in this order ---- *)
 
 Theorem source_comparison_fields : forall x y, atom_cmp x y = atom_cmp_by src_atom_steps x y.
